@@ -46,7 +46,7 @@ prop("C05", [H("K9_copystored"), H("H02_big", quick={"wall": "140s", "shards": 1
              H("H05_merge", quick={"skip": True}, thorough={"wall": "1500s", "shards": 16, "param": "maxDocs=1,tieReopen=1,maxOcc=1,nInputs=3"}),
              # multi-valued stored fields (up to 3 occurrences with array positions), every field present and stored
              H("H05_merge", common={"param": "maxDocs=1,tieReopen=1,maxOcc=3,storeAll=1,always=1,fixAP=1,symTyp=0"}, quick={"wall": "140s", "shards": 4}, thorough={"wall": "1500s", "shards": 16, "param": "maxDocs=2,tieReopen=1,maxOcc=3,storeAll=1,always=1,fixAP=1,symTyp=0"})])
-prop("C06", KERNELS_CODEC[2:] + [H("H06_large", quick={"wall": "140s", "shards": 8, "shard-depth": 3, "param": "nBlocks=3,nProbes=2"}, thorough={"wall": "1500s", "shards": 16, "shard-depth": 3, "param": "nLarge=2100"}), H("H06_locids"), H("H06_enum", quick={"wall": "140s", "shards": 4}), H("H06_merge", quick={"wall": "150s", "shards": 16, "param": "maxDocs=1,tieReopen=0"}, thorough={"wall": "1500s", "shards": 16, "param": "maxDocs=2,tieReopen=0,gen2=1"})])
+prop("C06", KERNELS_CODEC[2:] + [H("H06_large", quick={"wall": "140s", "shards": 8, "shard-depth": 3, "param": "nBlocks=3,nProbes=2"}, thorough={"wall": "1500s", "shards": 16, "shard-depth": 3, "param": "nLarge=2100"}), H("H06_locids"), H("H06_enum", quick={"wall": "140s", "shards": 4}), H("H06_merge", quick={"wall": "150s", "shards": 16, "param": "maxDocs=1,tieReopen=0,lite=1"}, thorough={"wall": "1500s", "shards": 16, "param": "maxDocs=2,tieReopen=0,gen2=1"})])
 PLAN["C06"]["harnesses"].append(H("H06_merge", quick={"skip": True}, thorough={"wall": "1500s", "shards": 16, "param": "maxDocs=1,tieReopen=1,lite=1,nInputs=3"}))
 prop("C07", [
     H("K2_uvarint_rt"), H("K2_uvarint_agree"),
@@ -149,6 +149,9 @@ _add("C12", H("H12_syn", quick={"wall": "140s", "shards": 8, "param": "maxSyn=1,
 
 # lockset discipline of the vector cache entry (reference count and id maps only under the cache's lock)
 _add("C16", H("H16_lockset", common={"vectors": True, "race": True}, quick={"wall": "100s", "shards": 4, "param": "maxEvents=4"}, thorough={"wall": "600s", "shards": 16, "param": "maxEvents=6"}))
+
+# the full field set with one document per input (exhaustive, about 90 s): thorough tier only
+_add("C06", H("H06_merge", quick={"skip": True}, thorough={"wall": "1500s", "shards": 16, "param": "maxDocs=1,tieReopen=0"}))
 
 # thorough wall budgets: the first budgeted run of a property gets 600 s, the others 240 s (a thorough check
 # also repeats the quick configurations, which are exhaustive inside their bounds)
